@@ -1187,6 +1187,17 @@ def r_query(w, op):
             sph = tuple(["s%d" % m for m in range(l, 0, -1)] + ["c%d" % m for m in range(l + 1)])
         args += [["angmom", sh.angmom, "scalar"], ["cartesian_order", sh.angmom_components_cart, "orders"],
                  ["spherical_order", sph, "sph"], ["apply_from", P["apply_from"], "str"]]
+    elif fn_name == "real_solid_harmonic":
+        l = P["orders"][0] + P["orders"][1]
+        m = (P["orders"][2] % (2 * l + 1)) - l
+        args += [["angmom", l, "scalar"], ["mag", m, "scalar"]]
+    elif fn_name == "factorial2":
+        args.append(["n", int_array("orders", [2 * x - 1 for x in P["orders"]], 1), "orders"])
+    elif fn_name == "is_integral_screened":
+        s1 = basis[d[1] % len(basis)]
+        s2 = basis[d[2] % len(basis)]
+        args += [["contractions_one", s1, "shell"], ["contractions_two", s2, "shell"],
+                 ["tol_screen", P["tol_screen"], "scalar"]]
     elif fn_name == "cls_contraction":
         return _bind_cls_contraction(w, op, basis, rs, reuse, pts, charges_for, int_array, float_vec)
     elif fn_name == "cls_array":
